@@ -198,7 +198,7 @@ func warmedBuffer(fn, l int) *rjson.Buffer {
 
 // runHandle executes one traversal and writes the event.
 func runHandle(sw *shardWriter, j *jb, kind byte, data []byte, script []answer, deflt answer, buf *rjson.Buffer, st *genStats, tag string) {
-	doc := relayout(data)
+	doc := relayoutCopy(data)
 	orig := append([]byte{}, doc...)
 	h := &scripted{doc: doc, script: script, deflt: deflt}
 	var p int
